@@ -45,7 +45,60 @@ struct World {
     script: Vec<String>,
 }
 
+/// Requests whose missing reply could not be judged because the tracker did not answer fresh canary connections either
+/// (a starved machine, not a verdict): the run is inconclusive.
+static UNDECIDED: std::sync::atomic::AtomicU64 = std::sync::atomic::AtomicU64::new(0);
+static LATE_REPLIES: std::sync::atomic::AtomicU64 = std::sync::atomic::AtomicU64::new(0);
+
+/// Canary: four fresh connections each scrape eight torrents (first bytes 0..8: every swarm worker takes part); all must be
+/// answered within 8 s. "A reply is missing" is only ever concluded while the tracker demonstrably answers others.
+fn tracker_responsive(addr: std::net::SocketAddr) -> bool {
+    for k in 0..4u8 {
+        let hashes: Vec<[u8; 20]> = (0..8u8)
+            .map(|b| {
+                let mut h = [0xCAu8; 20];
+                h[0] = b;
+                h[1] = k;
+                h
+            })
+            .collect();
+        let mut c = match WsConn::open(addr, None) {
+            Ok(c) => c,
+            Err(_) => return false,
+        };
+        let replies = ask(&mut c, &scrape_json(Some(&hashes), false), 8_000);
+        if !replies.iter().any(|m| matches!(m, Msg::ScrapeReply { .. })) {
+            return false;
+        }
+    }
+    true
+}
+
 impl World {
+    /// Called when a positive expectation ("a reply arrives") has not been met within its first wait. Keeps pumping while
+    /// `arrived` stays false: up to five rounds of (canary, further wait). Returns true when the reply arrived after
+    /// all (late, counted), false when it is still missing although the tracker answered the canaries (a verdict); when
+    /// the tracker never answered the canaries either, the case is undecided (run inconclusive) and true is returned so
+    /// that no violation is recorded.
+    fn patience(&mut self, mut arrived: impl FnMut(&mut World) -> bool) -> bool {
+        let addr = self.tracker.addr_v4();
+        for _ in 0..5 {
+            let responsive = tracker_responsive(addr);
+            let t0 = Instant::now();
+            while t0.elapsed() < Duration::from_millis(if responsive { 4_000 } else { 10_000 }) {
+                self.pump_all(5);
+                if arrived(self) {
+                    LATE_REPLIES.fetch_add(1, std::sync::atomic::Ordering::SeqCst);
+                    return true;
+                }
+            }
+            if responsive {
+                return false;
+            }
+        }
+        UNDECIDED.fetch_add(1, std::sync::atomic::Ordering::SeqCst);
+        true
+    }
     fn fam(&self, s: usize) -> Fam {
         if self.slots[s].v6 {
             Fam::V6
@@ -109,10 +162,17 @@ impl World {
             if found {
                 return true;
             }
-            if c.closed || t0.elapsed() > Duration::from_millis(ms) {
+            if c.closed {
                 return false;
             }
+            if t0.elapsed() > Duration::from_millis(ms) {
+                break;
+            }
         }
+        self.patience(|w| {
+            let c = w.slots[s].conn.as_ref().unwrap();
+            c.closed || c.log[w.slots[s].cursor..].iter().any(|m| matches!(m, Incoming::Text(j, raw) if matches!(classify(j, raw), Msg::ScrapeReply { .. }) && raw.contains("\"scrape\"")))
+        }) && !self.slots[s].conn.as_ref().unwrap().closed
     }
 }
 
@@ -593,6 +653,21 @@ fn scenario_routing(args: &Args, report: &mut Report) {
                     w.pump_all(8);
                     got.extend(w.take_new());
                     break;
+                }
+            }
+            if !got.iter().any(|(slot, _)| *slot == s) {
+                // nothing within the first wait: canary-judged patience (a slow reply on a loaded machine is not a lost one)
+                let mut late: Vec<(usize, Msg)> = Vec::new();
+                let arrived = w.patience(|w| {
+                    late.extend(w.take_new());
+                    late.iter().any(|(slot, _)| *slot == s)
+                });
+                w.pump_all(8);
+                late.extend(w.take_new());
+                got.extend(late);
+                if arrived && !got.iter().any(|(slot, _)| *slot == s) {
+                    // undecided (tracker unresponsive to canaries): no verdict on this request
+                    continue;
                 }
             }
             let mine: Vec<&Msg> = got.iter().filter(|(slot, _)| *slot == s).map(|(_, m)| m).collect();
@@ -1346,5 +1421,10 @@ fn main() {
         "corpus" => scenario_corpus(&args, &mut report),
         other => report.inconclusive(format!("unknown scenario {}", other)),
     }
+    let undecided = UNDECIDED.load(std::sync::atomic::Ordering::SeqCst);
+    if undecided > 0 {
+        report.inconclusive(format!("{} expected reply(ies) could not be judged: the tracker did not answer canary connections either (starved machine)", undecided));
+    }
+    report.add("replies_that_arrived_after_the_first_wait(judged by canaries)", LATE_REPLIES.load(std::sync::atomic::Ordering::SeqCst));
     report.finish(&args.out());
 }
